@@ -20,6 +20,7 @@ from vf import replay as replay_mod
 
 VERIF = e1.VERIF
 KNOWN = os.path.join(VERIF, 'known_findings.json')
+OUT = VERIF
 
 
 def load_known(prop: str):
@@ -85,8 +86,10 @@ def main(argv=None) -> int:
             print(f'VIOLATION property={spec["property"]} replay={a.replay}')
         return EXIT_VIOLATION if ok else EXIT_OK
 
-    os.makedirs(os.path.join(VERIF, 'evidence'), exist_ok=True)
-    os.makedirs(os.path.join(VERIF, 'replays'), exist_ok=True)
+    global OUT
+    OUT = os.environ.get('VERIF_OUT', VERIF)     # evidence/ and replays/ go here (seed runs redirect it)
+    os.makedirs(os.path.join(OUT, 'evidence'), exist_ok=True)
+    os.makedirs(os.path.join(OUT, 'replays'), exist_ok=True)
     scratch = tempfile.mkdtemp(prefix=f'verif-{prop}-')
     os.environ['VERIF_SCRATCH'] = scratch
     try:
@@ -157,7 +160,7 @@ def _run(prop, tier, ti, seed, a, scratch, t_start) -> int:
                 names = [n for n, _ in j.cond.sym_params()]
                 args = dict(zip(names, parsed['a']))
                 args.update(parsed['k'])
-                rp = os.path.join(VERIF, 'replays', f'{prop}-{j.cond.name}-{len(violations) + len(known_hit) + len(artefacts)}.json')
+                rp = os.path.join(OUT, 'replays', f'{prop}-{j.cond.name}-{len(violations) + len(known_hit) + len(artefacts)}.json')
                 spec = {'property': prop, 'condition': j.cond.name, 'args': {k: replay_mod.encode(v) for k, v in args.items()},
                         'extra_pre': list(j.extra_pre), 'crosshair_message': detail[:500]}
                 json.dump(spec, open(rp, 'w'), indent=1)
@@ -227,7 +230,7 @@ def _run(prop, tier, ti, seed, a, scratch, t_start) -> int:
                 if hit:
                     known_hit.append((hit, 'e2:' + ob['name'], ob.get('model', {})))
                 else:
-                    rp = os.path.join(VERIF, 'replays', f'{prop}-e2-{ob["name"]}.json')
+                    rp = os.path.join(OUT, 'replays', f'{prop}-e2-{ob["name"]}.json')
                     json.dump({'property': prop, 'e2': ob['name'], 'model': ob.get('model')}, open(rp, 'w'), indent=1)
                     violations.append((None, ob.get('model'), rp, ob.get('detail', '')))
 
@@ -272,7 +275,7 @@ def _run(prop, tier, ti, seed, a, scratch, t_start) -> int:
     ev = {'property_id': prop, 'tier': tier, 'seed': seed, 'level': 'other', 'coverage': coverage,
           'assumptions': assumptions[:400], 'wall_s': round(wall, 2), 'violations': len(violations)}
     if not a.only:
-        with open(os.path.join(VERIF, 'evidence', f'{prop}.json'), 'w') as f:
+        with open(os.path.join(OUT, 'evidence', f'{prop}.json'), 'w') as f:
             json.dump(ev, f, indent=1, default=str)
 
     # ---- report
